@@ -82,7 +82,15 @@ Section Spec2.
     (* replace_with(None) of a parent-less receiver = detach; its ASTNodeReplaceWithError leaves the state alone *)
     | OReplaceWith a None =>
         match ob with RNone => parent s a = None | RErr ERw | RDiv => True | _ => False end
-    | OReplaceWith a (Some _) => match ob with RDiv => True | _ => False end
+    (* replace_with(node) of a parent-less receiver, the node being detached once the receiver is: detach + id flip +
+       attach; the guard of attach is read on the state in which the node already carries the receiver's id *)
+    | OReplaceWith a (Some n) =>
+        match ob with
+        | RNone => parent s a = None /\ detached (fst (step H ct s (ODetach a))) n = true /\
+                   att_guard (fst (flip_ids (fst (step H ct s (ODetach a))) a n)) n
+        | RDiv => True
+        | _ => False
+        end
     | _ => False
     end.
   Fixpoint guarded (s : st) (ops : list op) : Prop :=
